@@ -68,7 +68,9 @@ Proof.
                      + l_e1 l + l_e2 l + l_e3 l)
                 = f * (uztwc st + uzfwc st + lztwc st + alzfpc st + alzfsc st + fst io)) by (rewrite B1; reflexivity).
   runfold. replace (1 - adimp p - pctim p) with f by (unfold f; ring).
-  nra.
+  assert (HP1 : fst io * f + fst io * adimp p + fst io * pctim p = fst io) by (unfold f; ring).
+  clear -B1f B2 CB Hside HP1.
+  lra.
 Qed.
 
 Section Run.
@@ -119,4 +121,34 @@ End Run.
 Lemma sac_stock_init0 p : sac_stock p (sac_init p 0 0 0 0 0 0) = 0.
 Proof.
   unfold sac_stock, sac_init, sac_uh_store. runfold. cbn [uztwc uzfwc lztwc adimc alzfsc alzfpc qq nth]. ring.
+Qed.
+
+(** the store invariant, written out *)
+Lemma st_inv_iff p st : st_inv p st <->
+  (0 <= uztwc st <= uztwm p /\ 0 <= uzfwc st <= uzfwm p /\ 0 <= lztwc st <= lztwm p /\
+   0 <= alzfpc st <= lzfpm p * (1 + side p) /\ 0 <= alzfsc st <= lzfsm p * (1 + side p) /\
+   uztwc st <= adimc st <= uztwc st + lztwm p).
+Proof.
+  split.
+  - intros []. tauto.
+  - intros (A & B & C & D & E & F). constructor; assumption.
+Qed.
+
+(** the reported lower-zone free-water states are the internal side-adjusted contents divided by
+    1 + side, hence within [0, lzfpm] and [0, lzfsm] after every step *)
+Lemma sac_reported_lz_bounds p st io : sac_ok p = true -> st_inv p (fst (sac_step p st io)) ->
+  0 <= lzfpc (fst (sac_step p st io)) <= lzfpm p /\ 0 <= lzfsc (fst (sac_step p st io)) <= lzfsm p.
+Proof.
+  intros Hok I. pose proof Hok as Hok'. sac_ok_split Hok'. destruct I as [_ _ _ Ip Is _].
+  unfold sac_step in *. cbn [fst lzfpc lzfsc alzfpc alzfsc] in *. runfold.
+  set (a := i_alzfpc _) in *. set (b := i_alzfsc _) in *.
+  assert (Hs : 0 < 1 + side p) by lra.
+  assert (Hi : 0 < / (1 + side p)) by (apply Rinv_0_lt_compat; lra).
+  assert (Ea : lzfpm p = lzfpm p * (1 + side p) / (1 + side p)) by (field; lra).
+  assert (Eb : lzfsm p = lzfsm p * (1 + side p) / (1 + side p)) by (field; lra).
+  repeat split.
+  - unfold Rdiv. apply Rmult_le_pos; lra.
+  - rewrite Ea. unfold Rdiv. apply Rmult_le_compat_r; lra.
+  - unfold Rdiv. apply Rmult_le_pos; lra.
+  - rewrite Eb. unfold Rdiv. apply Rmult_le_compat_r; lra.
 Qed.
